@@ -797,3 +797,51 @@ def _covpd(eng, st, X, *se):
     if se:
         return _CPD(_data_id(eng, st, X), to_z3(se[0]), to_z3(se[1]))
     return _CPD(*_seg_key(eng, st, X))
+
+
+# ----------------------------------------------------------------------------- telescoping along a returned chain (C02: total cost of the segmentation)
+# SEGTOT(tok, cid, n, beta, q): penalised cost of the first q segments of the segmentation 0 = t_0 < t_1 = cps[0] < ... < t_K = cps[K-1] < t_{K+1} = n
+# named cid: SEGTOT(0) = 0, SEGTOT(q+1) = SEGTOT(q) + AGG2(tok, t_q, t_{q+1}) + beta.
+_SEGTOT = z3.Function("SEGTOT", _I, _I, _I, _R, _I, _R)
+SPEC_FUNCS["SEGTOT"] = lambda eng, st, tok, cps, n, beta, q: _SEGTOT(to_z3(tok), _arrid(eng, st, cps), to_z3(n), to_z3(to_real(beta)), to_z3(q))
+
+
+@spec("SEGTOT_DEF")
+def _segtot_def(eng, st, tok, cps, n, beta):
+    """Definition of SEGTOT by its recurrence for the chain `cps` (instance)."""
+    q = z3.Int(fresh_name("q"))
+    K = to_z3(cps.shape[0])
+    tokz, nz, bz, cid = to_z3(tok), to_z3(n), to_z3(to_real(beta)), _arrid(eng, st, cps)
+    S = lambda x: _SEGTOT(tokz, cid, nz, bz, x)
+    t = lambda x: z3.If(x == 0, z3.IntVal(0), z3.If(x <= K, to_z3(cps.get(x - 1)), nz))
+    f = z3.ForAll([q], z3.Implies(z3.And(0 <= q, q <= K), S(q + 1) == S(q) + _AGG[2](tokz, t(q), t(q + 1)) + bz), patterns=[S(q + 1)])
+    eng.note_assumption("definition of the spec function SEGTOT (penalised cost of the first q segments of the returned segmentation) by its recurrence")
+    st.assume(S(0) == 0)
+    st.assume(f)
+    return True
+
+
+@spec("L_tel")
+def _l_tel(eng, st, F, S, k):
+    """Telescoping: F[0] == S[0] + k and F[q+1] - F[q] == S[q+1] - S[q] for all q  =>  F[q] == S[q] + k for all q (induction in LEMMA_PROOFS)."""
+    q = z3.Int(fresh_name("q"))
+    n = to_z3(F.shape[0])
+    f = lambda x: to_z3(to_real(F.get(x)))
+    s = lambda x: to_z3(to_real(S.get(x)))
+    kz = to_z3(to_real(k))
+    prem = [f(0) == s(0) + kz,
+            z3.ForAll([q], z3.Implies(z3.And(0 <= q, q + 1 < n), f(q + 1) - f(q) == s(q + 1) - s(q)), patterns=[s(q + 1)])]
+    concl = z3.ForAll([q], z3.Implies(z3.And(0 <= q, q < n), f(q) == s(q) + kz), patterns=[s(q)])
+    return LemmaInst("L_tel", prem, concl)
+
+
+def _tel_proof():
+    F = z3.Function("F!T2", _I, _R)
+    S = z3.Function("S!T2", _I, _R)
+    n, i, q = z3.Ints("n!T2 i!T2 q!T2")
+    k = z3.Real("k!T2")
+    hyp = [F(0) == S(0) + k, z3.ForAll([q], z3.Implies(z3.And(0 <= q, q + 1 < n), F(q + 1) - F(q) == S(q + 1) - S(q)), patterns=[S(q + 1)])]
+    return [(".base", hyp, F(0) == S(0) + k), (".step", hyp + [0 <= i, i + 1 < n, F(i) == S(i) + k], F(i + 1) == S(i + 1) + k)]
+
+
+LEMMA_PROOFS["L_tel"] = _tel_proof
